@@ -276,7 +276,7 @@ def brackets(in_file, in_encoding, **params):
                                         + tokenmap[terminal.data['num']]
                             else:
                                 for terminal in trees.terminals(queue[0]):
-                                    terminal.data['num'] = int(terminal.data['word']) + 1
+                                    terminal.data['num'] = int(terminal.data['word'])
                                     terminal.data['word'] = tokenmap[terminal.data['num']]
                         yield queue[0]
                         term_cnt = 1
